@@ -5,6 +5,7 @@
 //! it owns the whole property at component level, `property()`.
 
 pub mod c05_codec;
+pub mod c06_crypto;
 pub mod c08_pn;
 pub mod c09_recovery;
 pub mod c10_cc;
